@@ -58,14 +58,34 @@ def verify_function(spec, reg):
             fsrc = FunctionSource(spec['file'], spec['qualname'])
         res.sha256, res.lines, res.dropped = fsrc.sha256, fsrc.lines, fsrc.dropped
         modenv = ModuleEnv.get(spec['file'])
+        if spec.get('fragment'):
+            # only one statement of a long function is verified, as a function
+            # of its free variables (declared as params); the rest of the
+            # function is NOT verified and is listed as such
+            import ast as _ast, hashlib as _hl
+            hit = [n for n in _ast.walk(fsrc.node) if isinstance(n, _ast.stmt) and
+                   (_ast.get_source_segment(fsrc.src, n) or '').startswith(spec['fragment'])]
+            if len(hit) != 1:
+                raise SpecError('fragment %r matches %d statements of %s'
+                                % (spec['fragment'], len(hit), spec['qualname']))
+            seg = _ast.get_source_segment(fsrc.src, hit[0])
+            fsrc.dropped.append('FRAGMENT: only lines %d-%d of %s are under contract '
+                '(statement starting %r); the remainder of the function is not verified'
+                % (hit[0].lineno, hit[0].end_lineno, spec['qualname'], spec['fragment'][:50]))
+            fsrc.body = fsrc._drop_block([hit[0]])
+            fsrc.sha256 = _hl.sha256(seg.encode()).hexdigest()
+            fsrc.lines = (hit[0].lineno, hit[0].end_lineno)
+            res.sha256, res.lines = fsrc.sha256, fsrc.lines
+            argnames = list(spec['params'])
+        else:
+            argnames = [a.arg for a in fsrc.node.args.args +
+                        fsrc.node.args.kwonlyargs]
         # signature check: every declared parameter exists
-        argnames = [a.arg for a in fsrc.node.args.args +
-                    fsrc.node.args.kwonlyargs]
         for p in spec['params']:
             if p not in argnames:
                 raise SpecError('%s has no parameter %s (spec mismatch)'
                                 % (spec['short'], p))
-        for a in argnames:
+        for a in ([] if spec.get('fragment') else argnames):
             if a not in spec['params'] and a != 'self' and \
                a not in spec.get('ignore_params', ()):
                 raise SpecError('%s: parameter %s not covered by the spec'
